@@ -249,8 +249,11 @@ type deepCall struct {
 // up maps a value of dc.fn to the root function: identity for a direct call or a constant, the call-site argument
 // for a parameter of the helper; nil when the value is computed inside the helper.
 func (dc deepCall) up(v ssa.Value) ssa.Value {
+	if len(dc.chain) == 0 {
+		return stripConv(resolveLocal(stripConv(v)))
+	}
 	for i := len(dc.chain) - 1; i >= 0; i-- {
-		v = stripConv(v)
+		v = stripConv(resolveLocal(stripConv(v)))
 		if _, isConst := v.(*ssa.Const); isConst {
 			return v
 		}
@@ -270,7 +273,7 @@ func (dc deepCall) up(v ssa.Value) ssa.Value {
 		}
 		v = args[idx]
 	}
-	return v
+	return stripConv(resolveLocal(stripConv(v)))
 }
 
 func (P *Prog) deepCalls(root *ssa.Function, depth int) []deepCall {
